@@ -34,7 +34,10 @@ SCHEMAS = {
     "Platform": {"os": S("str", "PlatformOs")},
     "Launch": {"labels": S("arr_table", "Label", "empty"), "processes": S("arr_table", "Process", "empty"), "slices": S("arr_table", "Slice", "empty")},
     "Label": {"key": S("str"), "value": S("str")},
+    "Process": {"type": S("str", "ProcessType"), "command": S("arr_str"), "args": S("arr_str", None, "empty"), "default": S("bool", None, False),
+                "working-dir": S("str", "WorkingDirectory", "app")},
+    "Slice": {"paths": S("arr_str")},
 }
 
 # wire kind of the child types (how they appear in a document)
-WIRE = {"BuildpackApi": "str", "BuildpackId": "str", "BuildpackVersion": "str", "SbomFormat": "str", "PlatformOs": "str", "FreeForm": "table"}
+WIRE = {"ProcessType": "str", "WorkingDirectory": "str", "BuildpackApi": "str", "BuildpackId": "str", "BuildpackVersion": "str", "SbomFormat": "str", "PlatformOs": "str", "FreeForm": "table"}
